@@ -160,6 +160,7 @@ def gen_scenario(rng, idx, thorough=False):
                 spec["faults"].append(f)
     add_handout_failures(spec)
     add_round3(spec)
+    add_round4(spec)
     return spec
 
 
@@ -251,6 +252,37 @@ def add_round3(spec):
             spec["faults"] = list(spec["faults"]) + [
                 {"kind": "error", "api": "OffsetFetch", "client": ry.choice(members)["cid"], "nth": ry.randrange(0, 4),
                  "code": ry.choice([14, 16]), "count": ry.choice([1, 2])}]
+
+
+def add_round4(spec):
+    """(own stream)
+    * resub_sync  subscribe(new topics ⊇ old) lands between the JoinGroup answer and the (delayed) SyncGroup
+                  answer of the member's k-th successful join: the assignment that then arrives was computed for
+                  the superseded subscription and must not be adopted
+    * tamper_sync the environment (a foreign leader / coordinator) hands one member, in one SyncGroup answer,
+                  an assignment that contains a partition of a topic the member did not subscribe to: the member
+                  must refuse it (`Subscription._assign` asserts)"""
+    import random
+    rx = random.Random(spec["seed"] ^ 0x04D0C5)
+    for m in spec["members"]:
+        m["resub_sync"] = None
+    spec["tamper_sync"] = []
+    names = sorted(spec["topics"])
+    if len(names) > 1:
+        plain = [m for m in spec["members"] if m["sub"].get("topics") == ["t0"] and m["resub"] is None]
+        if plain and rx.random() < 0.3:
+            m = rx.choice(plain)
+            delay = rx.choice([0.4, 0.8])
+            m["resub_sync"] = {"join": rx.randint(0, 2), "after": round(rx.uniform(0.003, delay - 0.05), 4),
+                               "topics": list(names)}
+            spec["faults"] = list(spec["faults"]) + [{"kind": "delay", "api": "SyncGroup", "client": m["cid"],
+                                                      "nth": 0, "count": 50, "seconds": delay}]
+        narrow = [m for m in spec["members"] if m["sub"].get("topics") in (["t0"], ["t1"]) and m["resub"] is None
+                  and m["resub_sync"] is None]
+        if narrow and rx.random() < 0.3:
+            m = rx.choice(narrow)
+            other = "t1" if m["sub"]["topics"] == ["t0"] else "t0"
+            spec["tamper_sync"].append({"client": m["cid"], "nth": rx.randint(0, 2), "topic": other})
 
 
 # ------------------------------------------------------------------------------------------ running
@@ -358,6 +390,28 @@ async def member_task(env, cluster, rec, spec, ms, boot, state):
         return
     end = ms["end"]
     resub = ms["resub"]
+    rs = ms.get("resub_sync")
+    if rs:
+        async def resub_in_sync_window():
+            seen, k = 0, 0
+            while True:
+                tr = cluster.trace
+                while k < len(tr):
+                    e = tr[k]
+                    k += 1
+                    if e["ev"] == "reply" and e.get("api") == "JoinGroup" and e.get("client") == cid \
+                            and "fault" not in e and not e.get("undelivered") \
+                            and (e.get("fields") or {}).get("error_code") == 0:
+                        if seen == rs["join"]:
+                            await asyncio.sleep(rs["after"])
+                            if cid not in rec.gone:
+                                c.subscribe(topics=rs["topics"], listener=listener)
+                                rec.last_sub[cid] = tuple(sorted(c.subscription()))
+                                rec.h("sub", cid, topics=sorted(c.subscription()), user=True, in_sync_window=True)
+                            return
+                        seen += 1
+                await asyncio.sleep(0.002)
+        asyncio.ensure_future(resub_in_sync_window())
     n_since_commit = 0
     flip = 0
     idle = ms.get("idle")
@@ -673,6 +727,35 @@ def install_stale_oor(cluster, wanted, nodes):
     cluster.reply = reply
 
 
+def install_tamper_sync(env, cluster, wanted):
+    """local hook (this cluster object only): the nth successful, non-empty SyncGroup answer to a client gets one
+    more partition — partition 0 of a topic that client did not subscribe to (an assignment made by a foreign
+    leader).  The answer is marked in the trace; the coordinator model never distributed it."""
+    if not wanted:
+        return
+    orig = cluster.reply
+    seen = {}
+
+    def reply(rq, **fields):
+        if rq.api_key == 14 and fields.get("error_code") == 0 and fields.get("member_assignment"):
+            for w in wanted:
+                if w["client"] == rq.client:
+                    k = seen.get(rq.client, 0)
+                    seen[rq.client] = k + 1
+                    if k == w["nth"] and (w["topic"], 0) in cluster.logs:
+                        a = env.MemberAssignment.decode(bytes(fields["member_assignment"]))
+                        asg = [(t, list(ps)) for t, ps in a.assignment] + [(w["topic"], [0])]
+                        fields = dict(fields)
+                        fields["member_assignment"] = env.MemberAssignment(a.version, asg, a.user_data).encode()
+                        cluster.trace.append({"ev": "h", "vt": int(cluster.now() * 1000 + 0.5), "op": "tamper_sync",
+                                              "m": rq.client, "conn": rq.conn.cid, "corr": rq.corr,
+                                              "added": (w["topic"], 0)})
+                    break
+        return orig(rq, **fields)
+
+    cluster.reply = reply
+
+
 def run_scenario(env, spec):
     sim = env.sim
     cluster = sim.SimCluster(nodes=spec["nodes"], topics=dict(spec["topics"]), seed=spec["seed"],
@@ -683,6 +766,7 @@ def run_scenario(env, spec):
     rec = Recorder(cluster)
     install_corruption(cluster, spec.get("corrupt") or [])
     install_stale_oor(cluster, spec.get("stale_oor") or [], spec["nodes"])
+    install_tamper_sync(env, cluster, spec.get("tamper_sync") or [])
     outcome = "done"
     try:
         sim.run(scenario_main(env, cluster, rec, spec), cluster, max_vt=spec["duration"] + 90.0)
@@ -777,6 +861,7 @@ def to_events(env, run):
     last_sync_gen = {}      # cid -> generation of the last delivered successful SyncGroup reply
     n = len(trace)
     extra = undisturbed_events(run)
+    tampered = {(e["conn"], e["corr"]) for e in trace if e["ev"] == "h" and e["op"] == "tamper_sync"}
 
     def topics_of(hexmeta):
         md = env.MemberMetadata.decode(bytes.fromhex(hexmeta))
@@ -797,6 +882,7 @@ def to_events(env, run):
             if op == "sub":
                 adopted_at[e["m"]] = e["vt"]
                 out.append(f"sub:{m}")
+                out.append(f"subT:{m}:{_nl(sorted(TOPIC_IDS[t] for t in e.get('topics', [])))}")
             elif op == "revS":
                 out.append(f"revS:{m}")
             elif op == "revE":
@@ -887,6 +973,8 @@ def to_events(env, run):
                     parked.pop(key, None)
             elif api == "SyncGroup":
                 rq = sync_req.pop(key, None)
+                if key in tampered:
+                    rq = None       # handed out by a foreign leader, not by the modelled coordinator
                 if rq is not None and delivered and f.get("error_code") == 0:
                     last_sync_gen[cid] = rq[1]
                     out.append(f"syncR:{m}:{rq[1]}:{_nl(tps_of(f['member_assignment']))}")
@@ -1279,7 +1367,7 @@ def run_check(ctx, prop, clause_of_reason, n_quick, n_thorough, workers=14):
     exe = str(ctx.ws.exe_path("akdriver"))
     # self-test of the observer: a hand-made good history must be accepted, hand-made bad ones rejected
     # for the right reason (a driver that accepts everything, or a protocol drift, must not go unnoticed)
-    good = ("revS:0;revE:0;joinS:0:0:1;gen:1:0=0;joinR:0:1;dist:1:0=0.1;syncR:0:1:0,1;asgS:0:1:0,1;snap:0:0,1;asgE:0;"
+    good = ("sub:0;subT:0:0;revS:0;revE:0;joinS:0:0:1;gen:1:0=0;joinR:0:1;dist:1:0=0.1;syncR:0:1:0,1;asgS:0:1:0,1;snap:0:0,1;asgE:0;"
             "noOffset:0:0;offer:0:0:0:r;fS:0:0:0;fR:0:0:0:4;del:0:0:0;del:0:0:1;commit:0:0:2:1;"
             "revS:0;revE:0;joinS:0:0:1;gen:2:0=0;joinR:0:2;dist:2:0=0.1;syncR:0:2:0,1;asgS:0:2:0,1;asgE:0;"
             "offer:0:0:2:c;fS:0:0:2;fR:0:0:2:4;del:0:0:2")
@@ -1346,7 +1434,7 @@ def run_check(ctx, prop, clause_of_reason, n_quick, n_thorough, workers=14):
             _, j, why = lean.split(" ", 2)
             cls, _, reason = why.partition(":")
             key = reason.split("_")[0] if "_" in reason and "=" in reason else reason
-            key = reason.split("_p=")[0].split("_adopted=")[0].split("_observed=")[0].split("_answered=")[0]
+            key = reason.split("_p=")[0].split("_adopted=")[0].split("_observed=")[0].split("_answered=")[0].split("_subscribed=")[0]
             reasons[key] = reasons.get(key, 0) + 1
             if cls in ("env", "harness"):
                 bad_env.append((r["idx"], why, r.get("context")))
